@@ -9,6 +9,15 @@ P = {
  "C11": (True, "model_checking", "TLA+ transcription of the canonical-integer rule (ClvmInt) model-checked by TLC; TLC-enumerated boundary cases and dense sweeps replayed through all encoders and trace-validated",
          "TLC exhaustively checks the canonical-form lemmas on the boundary lattice and all short adversarial atoms; every case and dense sweeps of values run through the five encoders/decoders and are validated against the spec by TLC trace validation",
          "SHA-256 from the JDK; clvmr as interpreter reference; interior of the u64 range is sampled, not enumerated", "3 C11"),
+ "C01": (True, "model_checking", "explicit TLA+ state machine of spend/condition validation (Conditions.tla) model-checked by TLC over systematic opcode x argument-shape x flag menus; every TLC terminal state replayed into parse_spends and random bundles trace-validated by TLC against the same machine",
+         "TLC explores the condition machine exhaustively over the menus (single, struct, two-byte, cross-spend, pair, big-amount); every terminal state becomes an input replayed through parse_spends<Empty|Mempool visitor>, and TLC trace validation re-runs the machine on each logged input (menus + seeded random/mutated bundles) comparing verdict and the full summary",
+         "SHA-256 from the JDK; key validity from raw blst; bounded menus + random sampling beyond them; signature checking itself is C05", "3 C01"),
+ "C02": (True, "model_checking", "C02 invariants (conservation, no double spend, no duplicate output, totals, coin-id definition) as TLC invariants of the Conditions machine and re-evaluated by TLC on the implementation's reported results in every validated trace",
+         "invariants hold in every reachable state of MC_Cond (amounts up to 2^64-1, sums beyond 64 bits); TLC trace validation evaluates the same invariants on the numbers the implementation itself reports for every accepted result",
+         "entry points beyond parse_spends are added as the generator pipeline comes online (see evidence: entry_points)", "3 C02"),
+ "C04": (True, "model_checking", "cost modelled twice in TLA+ (operational countdown vs declarative table sum) and checked equal by TLC; limit exactness (total / total-1) as a TLC invariant; reported costs compared with the machine in trace validation incl. frontier re-runs",
+         "TLC checks countdown = table sum, accumulator consistency and exactness of the limit over all menus incl. all 256 two-byte opcodes and both fork modes; the implementation's reported costs are validated against the machine on every event and accepted bundles are re-run at limit = total and total-1",
+         "cost-table literals in the spec are the consensus rule; byte/interned and CLVM execution cost composition is covered with the generator pipeline", "3 C04"),
 }
 ORDER = ["C%02d" % i for i in range(1, 21)]
 PENDING_REASON = "check not built yet in this round (construction order DESIGN section 8); no claim is made"
